@@ -116,4 +116,29 @@ def inGeneral (inputs : List String) (defs : List (String × BExp)) (rets : List
 def inGeneralClass (inputs : List String) (defs : List (String × BExp)) (rets : List String) : Bool :=
   inGeneral inputs defs rets || inFragment inputs defs rets || inFragmentConst inputs defs rets
 
+/-! ## The general class for cleanliness (`QV.C03.C03_general_partial`, `QV.C06.C06_general_partial`) -/
+
+/-- every left-hand side is a requested return bit -/
+def retDefs (rets : List String) : List (String × BExp) → Bool
+  | [] => true
+  | (r, _) :: rest => rets.contains r && retDefs rets rest
+
+/-- the intermediates (left-hand sides that are not requested return bits: with final uncomputation on their
+ancillas are kept for `uncompute_all`) come first, the return bits last -/
+def keptThenRet (rets : List String) : List (String × BExp) → Bool
+  | [] => true
+  | (r, e) :: rest => if rets.contains r then retDefs rets ((r, e) :: rest) else keptThenRet rets rest
+
+/-- every left-hand side is new (not an argument, not defined before – a name that is re-bound leaves its old
+qubit without an owner, see the finding in `docs/notes/C02_C03_C06.md`), every right-hand side is without
+constants (a `TRUE` qubit created inside a return statement would have to be reset by `uncompute_all`) -/
+def freshDefs (scope : List String) : List (String × BExp) → Bool
+  | [] => true
+  | (r, e) :: rest => !scope.contains r && !hasConst e && freshDefs (scope ++ [r]) rest
+
+/-- the class of `QV.C03.C03_general_partial`: the general class of C02 (sharing, cache hits inside and across
+statements, several return bits), every name defined once, no constants, intermediates first -/
+def inGeneralClean (inputs : List String) (defs : List (String × BExp)) (rets : List String) : Bool :=
+  inGeneral inputs defs rets && freshDefs inputs defs && keptThenRet rets defs
+
 end QV.Compiler
